@@ -8,7 +8,8 @@ saturating operations of the code (`total_scalar_bytes.saturating_add`, the rati
 
 Per-document policy (`EnforcingPolicy::PerDocument`): a document is charged from its own `DocumentStart`
 through its `DocumentEnd` — `observe` resets the per-document state BEFORE it counts a `DocumentStart`,
-and does not count `StreamStart` / `StreamEnd` at all (`Enf.perDocPrologue`).
+and does not count `StreamStart` / `StreamEnd` at all (`Enf.perDocPrologue`); the alias/anchor ratio is judged at every
+`DocumentEnd` (`observe`), not by `finalize`.
 -/
 namespace SaphyrVerif.Budget
 open SaphyrVerif SaphyrVerif.Scalars
@@ -124,6 +125,15 @@ def Enf.bumpDepth (e : Enf) : Except Breach Enf :=
   if md > e.lim.maxDepth then .error (.depth md)
   else .ok { e with depth := d, report := { e.report with maxDepth := md } }
 
+/-- `ratio_breach`: the alias/anchor ratio heuristic over the counters as they stand (`aliases`, the number of defined
+anchors); the product saturates -/
+def Enf.ratioBreach (e : Enf) : Option Breach :=
+  let aliases := e.report.aliases
+  let anchors := e.defined.length
+  if e.lim.enforceRatio && aliases ≥ e.lim.minAliases &&
+      (anchors == 0 || aliases > satMul e.lim.multiplier anchors)
+  then some (.ratio aliases anchors) else none
+
 /-- The per-document prologue of `observe` (the `if self.policy == PerDocument { match ev {…} }` block):
 `DocumentStart` forgets the previous document BEFORE the event is counted, `StreamStart` / `StreamEnd`
 return `Ok(())` at once (`none`: nothing is counted), every other event passes unchanged.  Under the
@@ -198,7 +208,13 @@ def Enf.observeCounted (e0 : Enf) (ev : Raw) : Except Breach Enf :=
       if d > e.lim.maxDocuments then .error (.documents d)
       else .ok { e with report := { e.report with documents := d } }
     else .ok e
-  | .docEnd => .ok e
+  | .docEnd =>
+    -- per-document policy: the alias/anchor ratio is judged when the document ends
+    if e.perDocument then
+      match e.ratioBreach with
+      | some b => .error b
+      | none => .ok e
+    else .ok e
   | .nothing => .ok e
   | .streamStart => .ok e
   | .streamEnd => .ok e
@@ -227,12 +243,11 @@ def Enf.observeAliasReplayed (e0 : Enf) : Except Breach Enf :=
 /-- `alias_occupies_position` -/
 def Enf.aliasOccupiesPosition (e : Enf) : Enf := { e with containers := handleAlias e.containers }
 
-/-- `finalize`: the report and the ratio breach, if any -/
+/-- `finalize`: the report and the ratio breach, if any.  Under the per-document policy the ratio has been judged at
+every `DocumentEnd` and is not judged again (the counters may belong to a document abandoned half-way). -/
 def Enf.finalize (e : Enf) : Report × Option Breach :=
   let r := { e.report with anchors := e.defined.length }
-  if e.lim.enforceRatio && r.aliases ≥ e.lim.minAliases &&
-      (r.anchors == 0 || r.aliases > satMul e.lim.multiplier r.anchors)
-  then (r, some (.ratio r.aliases r.anchors)) else (r, none)
+  if !e.perDocument then (r, e.ratioBreach) else (r, none)
 
 /-- Feed a whole event list; `inl (i, breach)` = `observe` failed at index `i`. -/
 def runFrom (e : Enf) (i : Nat) : List Raw → Except (Nat × Breach) Enf
